@@ -14,6 +14,73 @@ from . import core, flavours, pipeline as P, queries as Q
 from .findings import Report, env_seed, load_findings, match_finding
 
 
+KEEP = ("n", "par", "kids", "top", "dat", "did", "knd", "meta", "typed")
+
+
+def _hist_battery(args):
+    """the same query battery on trees that are the result of a HISTORY of mutating operations on one live object
+    (removals with and without keep_children, moves, sorts, filters, copies, data changes), not freshly built ones"""
+    import random
+    from . import randops, trace
+    prop, flname, seeds, steps, opts, base = args
+    fl = flavours.make(flname.split("+")[0], flname.endswith("+typed"))
+    out = []
+    for k, seed in enumerate(seeds):
+        rng = random.Random(seed)
+        b = core.build({"n": 0, "par": [], "kids": [], "top": [], "dat": [], "did": [], "knd": [], "meta": [],
+                        "typed": fl.typed}, fl)
+        src = core.build(P.src_state(fl, 1, 0), fl, 1, name="src")
+        for _ in range(steps):
+            cur = trace.snapshot(b)
+            op = randops.random_op(cur, rng, D=3, typed=fl.typed, kinds=(0, 2) if fl.typed else (0,), max_nodes=6,
+                                   is_str=fl.is_str, families=["add", "add", "add_node", "move", "remove", "sort", "set_data", "filter"])
+            core.execute(b, op, src)
+        st = trace.snapshot(b)
+        st = {x: st[x] for x in KEEP}
+        out.append({"id": base + k, "fl": flname, "st": st, "obs": _observe(prop, Q.Ctx(b, st), fl, st, opts, base + k)})
+    return out
+
+
+def run_histories(rep, prop, flname, opts, label, *, histories, steps, seed):
+    jobs = [(prop, flname, [seed * 10007 + h for h in range(i, histories, 16)], steps, opts, 500000 + i * 1000)
+            for i in range(16)]
+    with mp.get_context("fork").Pool(16) as pool:
+        outs = pool.map(_hist_battery, jobs)
+    recs = [r for o in outs for r in o]
+    nobs = sum(len(r["obs"]) for r in recs)
+    mism, checked, wall = P.validate_records(recs, module="TraceQuery.tla", tag="qh", shards=16)
+    if checked != nobs:
+        raise P.TLCError(f"{label}: validated {checked} of {nobs} observations")
+    byid = {r["id"]: r for r in recs}
+    rep.validated += nobs
+    rep.evaluations += nobs
+    for r in recs:
+        for o in r["obs"]:
+            rep.nontrivial.add(hash(("hist", flname, json.dumps(r["st"]["kids"]), json.dumps(r["st"]["dat"]), o["q"],
+                                     json.dumps(o["a"], sort_keys=True))))
+    for m in mism:
+        if m["property"] == prop:
+            rec = byid.get(m["id"])
+            rep.mismatch(m, {"fl": rec["fl"], "st": rec["st"], "args": m["why"], "after_history": True} if rec else None)
+    rep.stages.append({"stage": f"{label}:{flname}", "histories": histories, "observations": nobs})
+
+
+def _observe(prop, c, fl, st, opts, salt):
+    if prop == "C06":
+        return Q.obs_c06(c, all_assign_max=opts.get("all_assign_max", 4), forms=opts.get("forms", "rotate"))
+    if prop == "C09":
+        return Q.obs_c09(c, D=opts.get("D", 3))
+    if prop == "C10":
+        return Q.obs_c10(c)
+    if prop == "C15":
+        return Q.obs_c15(c)
+    if prop == "C16":
+        return Q.obs_c16(c, styles=opts.get("styles"), rotate=salt)
+    if prop == "C17":
+        return Q.obs_c17(c)
+    raise ValueError(prop)
+
+
 def _battery(args):
     prop, states, flname, opts, base = args
     fl = flavours.make(flname.split("+")[0], flname.endswith("+typed"))
@@ -184,15 +251,25 @@ def run(prop: str, tier: str) -> int:
         run_states(rep, prop, sts, "words", {"D": 3}, "c09")
         run_states(rep, prop, sts if not quick else sts[::2], "int", {"D": 3}, "c09-int-keys")   # int data_ids: ambiguous int keys
         run_states(rep, prop, sts if not quick else sts[1::2], "unhash", {"D": 3}, "c09-unhashable")   # dicts + id callback
+        run_states(rep, prop, sts if not quick else sts[::3], "falsy", {"D": 3}, "c09-falsy-data")    # int data incl. 0 (data_id 0)
+        sts0 = labelled(rep, max_nodes=3, d=2, xids=(0, 11), label="labelled+ids")
+        run_states(rep, prop, sts0 if not quick else sts0[::2], "str0", {"D": 2}, "c09-falsy-ids")      # explicit data_ids 0 and ""
         if not quick:
             run_states(rep, prop, sts, "keyed", {"D": 3}, "c09")
-            sts2 = labelled(rep, max_nodes=3, d=2, xids=(0, 11), label="labelled+ids")
-            run_states(rep, prop, sts2, "words", {"D": 2}, "c09ids")
+            run_states(rep, prop, sts0, "words", {"D": 2}, "c09ids")
         rep.assumptions = ["the set of nodes a pattern matches is computed by the harness with re.fullmatch on node.name "
                            "(Python's re is the reference for regex semantics)"]
     elif prop == "C10":
         sts = shapes(rep, max_nodes=5 if quick else 7, label="shapes")
         run_states(rep, prop, sts, "str", {}, "c10")
+        # larger trees with clones in different depths (few labels, 6-7 nodes; a seeded sample)
+        import random
+        from .checks_diff import random_tree
+        rng = random.Random(seed + 77)
+        big = [random_tree(rng, rng.randint(6, 7), rng.randint(2, 3)) for _ in range(300 if quick else 5000)]
+        run_states(rep, prop, big, "str", {}, "c10-clones-deep")
+        run_histories(rep, prop, "str", {}, "c10-after-histories", histories=60 if quick else 1500, steps=14, seed=seed)
+        run_histories(rep, prop, "keyed", {}, "c10-after-histories", histories=30 if quick else 600, steps=14, seed=seed + 1)
         run_states(rep, prop, sts if not quick else sts[: len(sts)], "keyed", {}, "c10-eq")   # all data compare ==
         sts2 = labelled(rep, max_nodes=3 if quick else 4, d=2 if quick else 3, label="labelled")
         run_states(rep, prop, sts2, "keyed", {}, "c10-clones")
@@ -200,6 +277,7 @@ def run(prop: str, tier: str) -> int:
         sts = shapes(rep, max_nodes=4 if quick else 6, k=2, label="typed-shapes")
         run_states(rep, prop, sts, "str+typed", {}, "c15")
         run_states(rep, prop, sts if not quick else sts[::2], "keyed+typed", {}, "c15-eq")   # all data compare ==
+        run_states(rep, prop, sts if not quick else sts[1::2], "kstr+typed", {}, "c15-empty-kind")   # one kind is ""
         if not quick:
             sts3 = shapes(rep, max_nodes=4, k=3, label="typed-shapes-3-kinds")
             run_states(rep, prop, sts3, "str+typed", {}, "c15-k3")
@@ -211,6 +289,9 @@ def run(prop: str, tier: str) -> int:
         run_states(rep, prop, sts2, "keyed", dict(o, full_max=3 if quick else 4), "c08-clones")
         # Tree(forward_attrs=True) over data objects with a `kind` attribute of their own
         run_states(rep, prop, sts2 if not quick else sts2[::2], "fwd", dict(o, full_max=3), "c08-fwd")
+        # explicit data_ids (the copying forms must carry them over)
+        sts4 = labelled(rep, max_nodes=3, d=2, xids=(0, 11), label="labelled+ids")
+        run_states(rep, prop, sts4 if not quick else sts4[::2], "str", dict(o, full_max=3), "c08-ids")
         sts3 = shapes(rep, max_nodes=3 if quick else 4, k=2, label="typed-shapes")
         run_states(rep, prop, sts3, "str+typed", dict(o, full_max=2 if quick else 3), "c08-typed")
         rep.assumptions = ["predicates answer per node identity; verdict forms rotate over: returned instance, raised "
@@ -227,7 +308,7 @@ def run(prop: str, tier: str) -> int:
         rep.assumptions = ["only the emitted text / triples are examined (no Graphviz or mmdc rendering)",
                            "graph node keys are mapped back through the harness registry (data_id / node_id)"]
     elif prop == "C16":
-        sts = shapes(rep, max_nodes=5 if quick else 7, label="shapes")
+        sts = shapes(rep, max_nodes=6 if quick else 7, label="shapes")
         run_states(rep, prop, sts, "str", {}, "c16")
         # clones (a clone may be a last sibling where its twin is not) and typed trees (TypedNode overloads
         # is_last_sibling() as "last of its kind")
